@@ -185,7 +185,8 @@ class Gen(object):
             elif k == 11 and tuple(ver) >= (1, 4):
                 fs.append({"name": "Sensitive", "v": r.random() < 0.5})
             else:
-                fs.append({"name": "Initial Date", "v": int(D.CLOCK.now) - r.randrange(0, 12)})
+                fs.append({"name": "Initial Date", "v": int(D.CLOCK.now) - r.randrange(0, 12) if r.random() < 0.92
+                           else r.choice([0, 253402300800, 10 ** 17, 2 ** 31 - 1])})      # also dates far outside the calendar
         p = {"filters": fs}
         if r.random() < 0.35:
             p["offset"] = r.randrange(0, 4)
@@ -242,6 +243,8 @@ class Gen(object):
             k = self.r.random()
             if k < 0.25:
                 p["wrap"] = {"kuid": self.uid(), "mode": "NIST_KEY_WRAP"}
+                if self.r.random() < 0.15:
+                    p["wrap"]["nocp"] = True          # key information without cryptographic parameters
             elif k < 0.3:
                 p["fmt"] = self.r.choice(["RAW", "PKCS_1"])
             return (op, p)
